@@ -1622,6 +1622,13 @@ class Interp:
                                       node))
             self._forward(("index", ft[1], args[0]), args[1])
             return args[1]
+        if ft[0] == "attr" and ft[2] == "pop" and len(args) == 1 \
+                and not kws and ft[1][0] in ("attr", "param", "self") \
+                and args[0][0] != "unop":
+            # x.pop(k) is: v = x[k]; del x[k]; v  (mapping key or list index)
+            v = mk_index(ft[1], args[0])
+            self.path.effects.append(("del-item", ft[1], args[0], node))
+            return v
         if ft[0] == "attr" and ft[2] == "get" and len(args) == 1 and not kws \
                 and ft[1][0] not in ("const",):
             # d.get(k): the value d[k], or None when k is not in d
